@@ -96,18 +96,102 @@ def components(inputs, by_barcodes):
     return sorted(map(frozenset, comps.values()), key=lambda s: min(s))
 
 
-def run_impl(inputs, contigs, by_barcodes, limit=200):
-    from maflib.overlap_iter import LocatableOverlapIterator
+# How the harness drives the iterator and looks at what it returns.  The property is about the emitted groups, whichever
+# way a consumer takes them: one at a time, collected first and inspected afterwards, through the documented `next()`
+# method, modifying the lists it was handed, with the contig order given as a FASTA index file, or over real MafRecords.
+MODES = ["stream", "collect", "next", "consume", "fai", "records"]
+
+
+class RecordOf:
+    """Real MafRecord objects standing for the Rec items of a case (identity -> rid)."""
+
+    def __init__(self, inputs, allele_columns=False):
+        from maflib.column import MafColumnRecord
+        from maflib.record import MafRecord
+        self.rid = {}
+        self.inputs = []
+        for inp in inputs:
+            row = []
+            for x in inp:
+                r = MafRecord()
+                cols = [("Chromosome", x.chromosome), ("Start_Position", x.start), ("End_Position", x.end),
+                        ("Tumor_Sample_Barcode", x.tumor), ("Matched_Norm_Sample_Barcode", x.normal)]
+                if allele_columns:
+                    cols += [("Reference_Allele", x.ref), ("Tumor_Seq_Allele2", x.alts[0])]
+                for k, v in cols:
+                    r.add(MafColumnRecord(k, v))
+                self.rid[id(r)] = x.rid
+                row.append(r)
+            self.inputs.append(row)
+
+    def ids(self, slot):
+        return [self.rid.get(id(r), -1) for r in slot]
+
+
+def drive(make, inputs, contigs, mode, limit, allele_columns=False):
+    """Run the iterator `make(iters, fasta_index)` (fasta_index: None = pass the contig list itself, else the path of a
+    FASTA index file listing the contigs) in one of MODES; groups as record ids per input, or an exception name."""
+    import os
+    import tempfile
+    ids = lambda slot: [r.rid for r in slot]   # noqa: E731
+    srcs = inputs
+    if mode == "records":
+        ro = RecordOf(inputs, allele_columns)
+        srcs, ids = ro.inputs, ro.ids
+    tmp = None
     try:
-        it = LocatableOverlapIterator([iter(x) for x in inputs], contigs=contigs, by_barcodes=by_barcodes)
+        if mode == "fai":
+            fd, tmp = tempfile.mkstemp(suffix=".fai", prefix="verif_overlap_")
+            with os.fdopen(fd, "w") as h:
+                h.write("".join("%s\t1000\t%d\t60\t61\n" % (c, 10 + 1017 * n) for n, c in enumerate(contigs)))
+        it = make([iter(x) for x in srcs], tmp)
         groups = []
-        for g in it:
-            groups.append([[r.rid for r in slot] for slot in g])
-            if len(groups) > limit:
-                return groups, "RUNAWAY"
+        if mode == "collect":
+            held = list(itertools.islice(it, limit + 1))          # all groups first ...
+            groups = [[ids(slot) for slot in g] for g in held]   # ... looked at afterwards
+        elif mode == "next":
+            held = []
+            while len(held) <= limit:
+                try:
+                    held.append(it.next())
+                except StopIteration:
+                    break
+            groups = [[ids(slot) for slot in g] for g in held]
+        else:
+            for g in it:
+                groups.append([ids(slot) for slot in g])
+                if mode == "consume":                             # the consumer uses up the lists it was handed
+                    for slot in g:
+                        del slot[:]
+                    del g[:]
+                if len(groups) > limit:
+                    break
+        if len(groups) > limit:
+            return groups, "RUNAWAY"
         return groups, None
     except Exception as e:  # noqa
         return None, exc_name(e)
+    finally:
+        if tmp is not None:
+            try:
+                os.unlink(tmp)
+            except OSError:
+                pass
+
+
+def mode_applies(mode, contigs):
+    """"fai" passes the contig order as a FASTA index file: only where a contig order is supplied."""
+    return mode != "fai" or bool(contigs)
+
+
+def run_impl(inputs, contigs, by_barcodes, limit=200, mode="stream"):
+    from maflib.overlap_iter import LocatableOverlapIterator
+
+    def make(iters, fasta_index):
+        if fasta_index is not None:
+            return LocatableOverlapIterator(iters, fasta_index=fasta_index, by_barcodes=by_barcodes)
+        return LocatableOverlapIterator(iters, contigs=contigs, by_barcodes=by_barcodes)
+    return drive(make, inputs, contigs, mode, limit)
 
 
 def recs_of(inputs):
@@ -124,20 +208,16 @@ def model_request(inputs, contigs, by_barcodes):
             "inputs": [[loc_of(r) for r in inp] for inp in inputs]}
 
 
-def eval_sorted(inputs, contigs, by_barcodes):
-    """One configuration of sorted inputs on the implementation + the property's oracle.
-    Returns (where, groups, exc, failures)."""
+def judge(groups, exc, inputs, contigs, by_barcodes, stored):
+    """The property's oracle on what one way of driving the iterator returned for sorted inputs."""
     failures = []
-    groups, exc = run_impl(inputs, contigs, by_barcodes)
-    where = {"inputs": [[repr(x) for x in inp] for inp in inputs], "contigs": contigs, "by_barcodes": by_barcodes}
-    stored = dict(where, recs=recs_of(inputs))
     if exc:
         failures.append(dict(stored, what="overlap iteration over sorted inputs failed with %s" % exc, kind="exception"))
-        return where, groups, exc, failures
+        return failures
     # partition
     for k, inp in enumerate(inputs):
-        cat = [rid for g in groups for rid in g[k]]
-        if cat != [x.rid for x in inp]:
+        cat = [rid for g in groups for rid in (g[k] if k < len(g) else [])]
+        if any(len(g) != len(inputs) for g in groups) or cat != [x.rid for x in inp]:
             failures.append(dict(stored, what="concatenating slot %d over all groups does not reproduce input %d" % (k, k),
                                  kind="partition", got=groups))
             break
@@ -159,25 +239,70 @@ def eval_sorted(inputs, contigs, by_barcodes):
                 mins.append(min(members, key=functools.cmp_to_key(lambda a, b: expected_cmp(loc_of(a), loc_of(b), order, contigs or []))))
             if any(expected_cmp(loc_of(mins[k]), loc_of(mins[k + 1]), order, contigs or []) > 0 for k in range(len(mins) - 1)):
                 failures.append(dict(stored, what="groups are not emitted in key order", kind="group-order", got=groups))
+    return failures
+
+
+MODE_TEXT = {"stream": "each group looked at as soon as it is returned",
+             "collect": "all groups collected first - list(iterator) - and looked at afterwards",
+             "next": "driven through the next() method, groups looked at after the last one",
+             "consume": "the consumer empties the lists it was handed before asking for the next group",
+             "fai": "the contig order given as a FASTA index file (fasta_index=...)",
+             "records": "the inputs are real MafRecord objects"}
+
+
+def eval_sorted(inputs, contigs, by_barcodes, modes=None):
+    """One configuration of sorted inputs on the implementation + the property's oracle, for every way of driving the
+    iterator in `modes` (default: all of MODES that apply).  Returns (where, groups, exc, failures); groups / exc are
+    those of the plain streaming use (what the model is compared with)."""
+    where = {"inputs": [[repr(x) for x in inp] for inp in inputs], "contigs": contigs, "by_barcodes": by_barcodes}
+    stored = dict(where, recs=recs_of(inputs))
+    failures = []
+    groups = exc = None
+    seen = {}
+    for mode in (MODES if modes is None else modes):
+        if not mode_applies(mode, contigs):
+            continue
+        g, e = run_impl(inputs, contigs, by_barcodes, mode=mode)
+        if mode == "stream":
+            groups, exc = g, e
+        key = repr((g, e))
+        if key not in seen:                      # the same answer was judged already
+            seen[key] = judge(g, e, inputs, contigs, by_barcodes, stored)
+        for f in seen[key]:
+            if mode == "stream":
+                failures.append(f)
+            elif not any(x.get("mode") is None for x in failures):    # not a consequence of the use: report the plain use only
+                failures.append(dict(f, mode=mode, what="%s (%s)" % (f["what"], MODE_TEXT[mode])))
     return where, groups, exc, failures
 
 
-def eval_disorder(inputs, contigs, by_barcodes):
-    """One configuration with an out-of-order input: the iteration must report it.  Returns (exc, failures)."""
-    groups, exc = run_impl(inputs, contigs, by_barcodes)
+def eval_disorder(inputs, contigs, by_barcodes, modes=None):
+    """One configuration with an out-of-order input: the iteration must report it, however it is driven.
+    Returns (exc, failures); exc is that of the plain streaming use."""
     failures = []
-    if exc is None:
-        failures.append({"what": "an out-of-order input was not reported", "kind": "unreported-disorder",
-                         "inputs": [[repr(x) for x in inp] for inp in inputs], "contigs": contigs, "by_barcodes": by_barcodes,
-                         "recs": recs_of(inputs), "got": groups})
-    return exc, failures
+    exc0 = None
+    for mode in (MODES if modes is None else modes):
+        if not mode_applies(mode, contigs):
+            continue
+        groups, exc = run_impl(inputs, contigs, by_barcodes, mode=mode)
+        if mode == "stream":
+            exc0 = exc
+        if exc is None and not failures:
+            f = {"what": "an out-of-order input was not reported", "kind": "unreported-disorder",
+                 "inputs": [[repr(x) for x in inp] for inp in inputs], "contigs": contigs, "by_barcodes": by_barcodes,
+                 "recs": recs_of(inputs), "got": groups}
+            if mode != "stream":
+                f.update(mode=mode, what="%s (%s)" % (f["what"], MODE_TEXT[mode]))
+            failures.append(f)
+    return exc0, failures
 
 
 def run(ctx):
     out = Outcome()
-    out.rule = ("1-3 inputs, <= 7 intervals (quick) over an 8-point line (touching, nested, chained, identical, disjoint), 1-3 chromosomes, 1-3 barcode pairs, both grouping modes, "
+    out.rule = ("0-3 inputs, <= 7 intervals (quick) over an 8-point line (touching, nested, chained, identical, disjoint), 1-3 chromosomes, 1-3 barcode pairs, both grouping modes, "
                 "contig list absent / as data order / reversed, inputs sorted by the chosen order (and, separately, one input perturbed out of order); thorough: exhaustive assignment of "
-                "every multiset of <= 4 intervals over a 5-point line x 2 chromosomes to <= 3 inputs; non-trivial = at least one group with >= 2 records; distinct configurations")
+                "every multiset of <= 4 intervals over a 5-point line x 2 chromosomes to <= 3 inputs; every configuration is run under each use of the iterator: "
+                + "; ".join("%s = %s" % (m, MODE_TEXT[m]) for m in MODES) + "; non-trivial = at least one group with >= 2 records; distinct configurations")
     rng = ctx.rng("c11")
     configs = [gen_config(rng, 7) for _ in range(ctx.scale(700, 6000))]
     if ctx.tier == "thorough":
@@ -190,6 +315,8 @@ def run(ctx):
                             items = [("T1", "N1", c, s, e, a) for (c, s, e), a in zip(combo, assign)]
                             configs.append((3, None, rng.random() < 0.5, items))
         out.extra["small_scope"] = "sampled 8% x 15% of all multisets of <= 4 intervals over a 5-point line x 2 chromosomes assigned to 3 inputs"
+    # "any number of inputs": none at all, and several that are all empty
+    configs += [(0, None, False, []), (0, ["1"], True, []), (3, None, True, []), (2, ["2", "1"], False, [])]
     reqs, meta = [], []
     for (n_inputs, contigs, by_barcodes, items) in configs:
         inputs = build_inputs(n_inputs, contigs, by_barcodes, items)
@@ -206,6 +333,9 @@ def run(ctx):
             out.disagreements.append({"op": "overlap.run", "request": {k: r[k] for k in ("by_barcodes", "contigs")},
                                       "inputs": where["inputs"], "model": m, "impl": i})
         out.failures += failures
+        for mode in MODES:
+            if mode_applies(mode, contigs):
+                out.distribution["use:" + mode] += 1
         if exc:
             continue
         if any(sum(len(s) for s in g) >= 2 for g in groups):
@@ -265,12 +395,17 @@ def replay_case(ctx, failure):
     print("replay C11: LocatableOverlapIterator over %d input(s), by_barcodes=%s, contigs=%s" % (len(inputs), by_barcodes, contigs))
     for k, inp in enumerate(inputs):
         print("  input %d: %s" % (k, " ".join(repr(x) for x in inp) or "(empty)"))
+    mode = failure.get("mode", "stream")
+    if mode not in MODES or not mode_applies(mode, contigs):
+        return None
+    print("  use: %s" % MODE_TEXT[mode])
+    groups, exc = run_impl(inputs, contigs, by_barcodes, mode=mode)
     if failure.get("kind") == "unreported-disorder":
-        exc, failures = eval_disorder(inputs, contigs, by_barcodes)
+        _exc, failures = eval_disorder(inputs, contigs, by_barcodes, modes=[mode])
         print("  (one input is out of order: the iteration has to report it)")
-        print("  implementation: %s" % ("raised %s" % exc if exc else "no error, groups (record ids per input) %s" % failures[0]["got"]))
+        print("  implementation: %s" % ("raised %s" % exc if exc else "no error, groups (record ids per input) %s" % groups))
     else:
-        where, groups, exc, failures = eval_sorted(inputs, contigs, by_barcodes)
+        where, _g, _e, failures = eval_sorted(inputs, contigs, by_barcodes, modes=[mode])
         print("  implementation: %s" % ("raised %s" % exc if exc else "groups (record ids per input) %s" % groups))
         print("  expected groups (connected components of the overlap graph): %s" % [sorted(c) for c in components(inputs, by_barcodes)])
         if getattr(ctx, "driver_ok", True) and ctx.driver.available():
